@@ -427,6 +427,10 @@ def scale_specs(tier):
            sensitive="last")
         mk("scale-1-170", 10, shape="1-170", topo="chain", sw="1os1s1p", exploits="e0", hostfw="none", discovery="one",
            sensitive="last")
+        mk("scale-11x11", 10, shape="11-1-1-1-1-1-1-1-1-1-1", topo="chain", sw="1os1s1p", exploits="e0", hostfw="none",
+           discovery="zero", sensitive="last")
+        mk("scale-12-12-12", 10, shape="12-12-12", topo="chain", sw="2os2s2p", exploits="e0e1", privescs="two",
+           discovery="zero", sensitive="two_subnets", hostfw="deny_pivot")
         mk("scale-130", 10, shape="65-65", topo="chain", sw="1os1s1p", exploits="e0", hostfw="none", discovery="zero",
            sensitive="last")
     return out
